@@ -338,13 +338,17 @@ fn run_one_policy(s: &Scn12, pos: Option<(usize, &Corruption)>, cov: &mut Cov, v
                 let _ = key;
             }
             (Sent::Response { key, .. }, Dec::Fail) => {
-                // a rejected response affects at most the request it was addressed to
-                poisoned = Some(*key);
+                // a rejected response affects at most the request it was addressed to. A one-shot is
+                // not touched again; a stream whose consumer is alive goes on accepting items (C02),
+                // the undecodable one is simply not delivered
                 let id = a.ids.get(key).map(|x| x.0);
-                let was_once = registry_before.as_ref().is_some_and(|r| r.iter().any(|e| Some(e.0) == id && e.1 == crux_core::verif::EntryKind::Once));
-                a.ids.remove(key);
-                if was_once && drop_on_reject {
-                    b.drop_req(*key);
+                let was_many = registry_before.as_ref().is_some_and(|r| r.iter().any(|e| Some(e.0) == id && e.1 == crux_core::verif::EntryKind::Many));
+                if !was_many {
+                    poisoned = Some(*key);
+                    a.ids.remove(key);
+                    if drop_on_reject {
+                        b.drop_req(*key);
+                    }
                 }
             }
             (Sent::Response { .. }, Dec::Event(_)) => unreachable!(),
